@@ -191,7 +191,7 @@ def run(ctx):
             try:
                 want, _, _ = run_plain(list(dict.fromkeys(arg)), {})
                 ser = pd.Series(list(arg) + [None], dtype=object)
-                extra_cats = [z for z in (R.gen_string(rng) for _ in range(2)) if z is not None and z not in arg]
+                extra_cats = list(dict.fromkeys(z for z in (R.gen_string(rng) for _ in range(2)) if z is not None and z not in arg))
                 cat = pd.Series(pd.Categorical(list(arg), categories=list(dict.fromkeys(arg)) + extra_cats))
                 for form, sr in (('object Series with a null', ser), ('categorical Series with unused categories', cat)):
                     got = rx.pdextract(sr)
